@@ -84,6 +84,8 @@ func specDotL(cf specFn2, wf specFn2, i, k, n int) gf2p16.T {
 // keptOut(out, r0, r1, b0, b1): every byte of every row of out that lies outside rows r0..r1 /
 // bytes b0..b1 has the value it had before the call (the frame, stated byte by byte so that
 // callers need no region reasoning).
+//@ pred keptRows(out, r0, r1) = forall(r, 0, len(out), forall(b, 0, len(out[r]), implies(r < r0 || r >= r1, out[r][b] == old(out[r][b]))))
+//@ pred keptCols(out, r0, r1, b0, b1) = forall(r, r0, r1, forall(b, 0, len(out[r]), implies(b < b0 || b >= b1, out[r][b] == old(out[r][b]))))
 //@ pred keptOut(out, r0, r1, b0, b1) = forall(r, 0, len(out), forall(b, 0, len(out[r]), implies(r < r0 || r >= r1 || b < b0 || b >= b1, out[r][b] == old(out[r][b]))))
 // dotOut(cf, wf, in, out, r0, r1, k0, k1): rows r0..r1, words k0..k1 of out hold the product.
 //@ pred dotOut(cf, wf, in, out, r0, r1, k0, k1) = forall(r, r0, r1, forall(k, k0, k1, gf2p16.SpecWord(out[r], k) == specDotL(cf, wf, r, k, len(in))))
@@ -123,7 +125,9 @@ func specDotL(cf specFn2, wf specFn2, i, k, n int) gf2p16.T {
 //@     invariant forall(k, 0, (dataEnd - dataStart)/2, gf2p16.SpecWord(outSlice, k) == specDotL(cf, wf, i, dataStart/2 + k, j))
 //@     invariant dotIn(cf, wf, m, in, outStart, outEnd, 0, len(in[0])/2)
 //@     invariant dotOut(cf, wf, in, out, outStart, i, dataStart/2, dataEnd/2)
-//@     invariant keptOut(out, outStart, outEnd, dataStart, dataEnd)
+//@     invariant forall(r, 0, len(out), implies(r != i, disjoint(out[r], out[i])), out[r]) && len(out[i]) >= dataEnd
+//@     invariant keptRows(out, outStart, outEnd)
+//@     invariant keptCols(out, outStart, outEnd, dataStart, dataEnd)
 //@     use dotStep(cf, wf, i, ?k, j)
 
 // applyOK: what every entry point needs from (m, in, out): at least one input row, a matrix
